@@ -11,6 +11,12 @@ def reproduce(c, st):
         c.g.gid, c.rule.encode().hex(), c.inp.encode().hex(), exe)
 
 
+def hanging(st):
+    """grammars whose real parser did not return on some input (outside every quantifier: e.g. a closure
+    over a body that can succeed without consuming); the re-run oracles leave them alone"""
+    return set(c.g.gid for c in st["cases"] if c.impl["k"] in ("TIMEOUT", "CRASH"))
+
+
 def case_payload(c, st, **extra):
     p = {"grammar": c.g.text, "user_context": c.g.ctx, "rule": c.rule, "input": c.inp,
          "input_hex": c.inp.encode().hex(), "implementation": c.impl, "model": c.model, "spec": c.spec,
@@ -65,6 +71,8 @@ def stream_coverage(out, st, cases, rule, nontrivial, extra=None):
         "grammars": len({c.g.gid for c in cases}),
         "stream_wall_s": round(st.get("wall", 0), 1),
         "grammars_dropped_model_limits": len(st.get("skipped_grammars", [])),
+        "cases_not_run_after_a_hang": st.get("cases_not_run_after_a_hang", 0),
+        "grammars_whose_parser_hangs": len(hanging(st)),
     }
     if extra:
         cov.update(extra)
